@@ -177,6 +177,21 @@ for n, o in zip(ns_list, outs):
         if not (np.allclose(got2, scipy.signal.hilbert(X, axis=-1), atol=1e-10) and
                 np.allclose(got3, scipy.signal.hilbert(X.T, axis=0), atol=1e-10)):
             chk.violation("hilbert:axis", "rfft_to_hilbert along an axis differs from scipy.signal.hilbert", {"n": n})
+        # 3-D and 4-D spectra along EVERY axis, written with a non-negative and with a negative index
+        # (spectra stored frequency-first, (numfreq, numtx, numrx); cubes, where a wrong axis order keeps the shape)
+        for shp_ in ((n, 2, 3), (2, n, 3), (2, 3, n), (n, n, n) if n <= 8 else (n, 2, 2), (2, n, 2, 3)):
+            for ax_ in range(len(shp_)):
+                if shp_[ax_] != n:
+                    continue
+                Xn = rng.standard_normal(shp_)
+                want_ = scipy.signal.hilbert(Xn, axis=ax_)
+                for spelled_ in (ax_, ax_ - len(shp_)):
+                    gotn = np.asarray(arim.signal.rfft_to_hilbert(np.fft.rfft(Xn, axis=ax_), n, axis=spelled_))
+                    evaluations += 1
+                    if gotn.shape != want_.shape or not np.allclose(gotn, want_, atol=1e-10):
+                        chk.violation("hilbert:axis-nd", f"rfft_to_hilbert of a {len(shp_)}-D spectrum along axis {spelled_} differs from scipy.signal.hilbert",
+                                      {"n": n, "shape": list(shp_), "axis": spelled_, "got_shape": list(gotn.shape), "x": Xn}, failing_input_found=True)
+                        break
 
 # ---------------------------------------------------------------------------
 # D. spectral shift: finite Fourier sum of Model/Dft.v vs FFT oracles, shift = roll
